@@ -5,7 +5,8 @@ V = os.environ.get("VERIF_ROOT", os.path.dirname(os.path.dirname(os.path.abspath
 B = os.environ.get("VERIF_BUILD", V + "/build")
 H = B + "/harness"
 SIM = ("-fsanitize=thread -mllvm -tsan-instrument-func-entry-exit=0 "
-       "-mllvm -tsan-instrument-memintrinsics=0 -mllvm -tsan-handle-cxx-exceptions=0")
+       "-mllvm -tsan-instrument-memintrinsics=0 -mllvm -tsan-handle-cxx-exceptions=0 "
+       "-DMOODYCAMEL_CPP11_THREAD_LOCAL_SUPPORTED")    # as in build.sh (see there)
 import hashlib, shutil
 stamp = hashlib.sha1((SIM + open(V + "/harness/CMakeLists.txt").read()).encode()).hexdigest()
 try:
